@@ -56,7 +56,9 @@ fn observed_dot(a: &Vector<f64>, b: &Vector<f64>) -> (Outcome<f64>, DotObs) {
 fn check_partition(o: &DotObs, len: usize, k: usize) -> Result<String, String> {
     let (l, w) = o.begin.ok_or("no DotBegin event")?;
     if l != len { return Err(format!("DotBegin len {} != {}", l, len)); }
-    if w != k { return Err(format!("worker count {} != CPUs available {}", w, k)); }
+    // (the worker count need not equal the CPU count: using fewer workers for short vectors would be legitimate;
+    //  it is reported as evidence by the caller, not judged)
+    let _ = k;
     if o.chunks.len() != w { return Err(format!("{} chunks for {} workers", o.chunks.len(), w)); }
     let mut c = o.chunks.clone();
     c.sort();
@@ -110,7 +112,7 @@ fn one_config(st: &mut Stats, rng: &mut Rng, k: usize, len: usize, delays: bool,
             let v = match out { Outcome::Ok(v) => v, o => { st.violation("C16:dot_f64:panic", format!("{}; {}", o.describe(), desc())); break; } };
             // hook monitor
             match check_partition(&obs, len, k) {
-                Ok(order) => { st.set_insert(&format!("completion-orders:w{}", k), order); st.count("hook:partitions-checked"); }
+                Ok(order) => { st.set_insert(&format!("completion-orders:w{}", k), order); st.count("hook:partitions-checked"); if obs.begin.map(|b| b.1) != Some(k) { st.count("hook:worker-count-differs-from-cpu-count"); } }
                 Err(e) => { if obs.begin.is_none() { st.count("hook:silent"); } else { st.violation("C16:dot_f64:partition", format!("{}; {}", e, desc())); } }
             }
             // value oracles
@@ -178,7 +180,7 @@ pub fn run(ctx: &Ctx) -> Report {
     stop.store(true, Ordering::Relaxed);
     for s in spinners { let _ = s.join(); }
     let mut rep = Report::new(stats,
-        "for every worker count k=1..K (K = CPUs in the initial affinity mask, 16 here; the monitor thread pins itself to k CPUs and confirms num_cpus::get()==k) and every length 0..200 (exhaustive) plus random longer lengths (multiples of k, multiples plus remainder, up to 4e4 quick / 2e5 thorough): three data sets (distinct integer products with exact partial sums, signed integers, general floats; quick tier: one data set per (k,len), rotating), each call made twice, half of the configurations with pseudo-random per-worker delays injected through hook H3, two duty-cycled background spinner threads throughout. Judged: bit-equality with dot() and the exact i128 dot product on exact data, |diff|<=2*len*u*sum|ab| on general data, bit-identical repeats; hook events: chunks tile [0,len) exactly once in order, chunk count == worker count == CPUs, completion tickets form a permutation (distinct completion orders are reported per worker count). Non-trivial: every (k,len,data,delay) configuration; distinct = that tuple");
+        "for every worker count k=1..K (K = CPUs in the initial affinity mask, 16 here; the monitor thread pins itself to k CPUs and confirms num_cpus::get()==k) and every length 0..200 (exhaustive) plus random longer lengths (multiples of k, multiples plus remainder, up to 4e4 quick / 2e5 thorough): three data sets (distinct integer products with exact partial sums, signed integers, general floats; quick tier: one data set per (k,len), rotating), each call made twice, half of the configurations with pseudo-random per-worker delays injected through hook H3, two duty-cycled background spinner threads throughout. Judged: bit-equality with dot() and the exact i128 dot product on exact data, |diff|<=2*len*u*sum|ab| on general data, bit-identical repeats; hook events: chunks tile [0,len) exactly once in order, chunk count == worker count (its relation to the CPU count is recorded, not judged), completion tickets form a permutation (distinct completion orders are reported per worker count). Non-trivial: every (k,len,data,delay) configuration; distinct = that tuple");
     rep.assumptions = vec!["worker count is set through sched_setaffinity on the calling thread (what num_cpus::get() reads)".into(), "Miri/TSan stages are run by the check wrapper (see sanitizer_stages in the evidence)".into()];
     rep.min_nontrivial = if ctx.quick() { 2000 } else { 15_000 };
     let mut ex = J::obj();
